@@ -166,15 +166,22 @@ func verifHarness_C01_tcp_sendfile_Q() {
 	verifAssert(false, "witness")
 }
 
-func verifHarness_C01_tcp_T() {
+func verifHarness_C01_tcp_four_ops_T() {
 	verifBound("ops", 4)
+	verifBound("buffer_len", 2)
+	verifC01Program(ConnTypeTCP, 4, 2, false, "tcp")
+	verifAssert(false, "witness")
+}
+
+func verifHarness_C01_tcp_longer_buffers_T() {
+	verifBound("ops", 3)
 	verifBound("buffer_len", 4)
-	verifC01Program(ConnTypeTCP, 4, 4, false, "tcp")
+	verifC01Program(ConnTypeTCP, 3, 4, false, "tcp")
 	verifAssert(false, "witness")
 }
 
 func verifHarness_C01_unix_T() {
-	verifC01Program(ConnTypeUnix, 4, 3, true, "unix+sendfile")
+	verifC01Program(ConnTypeUnix, 3, 3, true, "unix+sendfile")
 	verifAssert(false, "witness")
 }
 
